@@ -725,3 +725,180 @@ func ruleR19g(c *Ctx) {
 	}
 	c.floor("R19g", "re-panics inside the parser's recover handlers", 2, n)
 }
+
+// R19h: file names do not identify files (AddTemplateString documents the name as optional; two files may
+// share one), so nothing in the registry selects a file, or its text, by comparing names: no == or != in
+// package template has a SoyFileNode's Name as an operand, and no map there is indexed by one. Positions
+// are looked up by template name, which Registry.Add keeps unique (R06c).
+func ruleR19h(c *Ctx) {
+	p := c.pkg("template")
+	if p == nil {
+		return
+	}
+	info := p.TypesInfo
+	isFileName := func(e ast.Expr) bool {
+		se, ok := ast.Unparen(e).(*ast.SelectorExpr)
+		if !ok || se.Sel.Name != "Name" {
+			return false
+		}
+		tv, ok := info.Types[se.X]
+		if !ok {
+			return false
+		}
+		_, tn, ok := relPkgOfType(tv.Type)
+		return ok && tn == "SoyFileNode"
+	}
+	nfun, nbad := 0, 0
+	for _, fd := range c.allFuncDecls("template") {
+		nfun++
+		ast.Inspect(fd.Body, func(x ast.Node) bool {
+			switch e := x.(type) {
+			case *ast.BinaryExpr:
+				if (e.Op == token.EQL || e.Op == token.NEQ) && (isFileName(e.X) || isFileName(e.Y)) {
+					nbad++
+					c.bad("R19h", fmt.Sprintf("%s selects-by-file-name#%d", c.declKey("template", fd), nbad), e.Pos(),
+						"a file is selected by comparing its name ("+exprKey(e)+"): names are optional and may repeat, so a template can be given another file's text, and its error positions then count lines in the wrong text (or exceed it)")
+				}
+			case *ast.IndexExpr:
+				if tv, ok := info.Types[e.X]; ok {
+					if _, isMap := tv.Type.Underlying().(*types.Map); isMap && isFileName(e.Index) {
+						nbad++
+						c.bad("R19h", fmt.Sprintf("%s selects-by-file-name#%d", c.declKey("template", fd), nbad), e.Pos(),
+							"a table is keyed by a file's name ("+exprKey(e)+"): names are optional and may repeat, so entries of different files overwrite each other")
+					}
+				}
+			}
+			return true
+		})
+	}
+	c.floor("R19h", "functions of package template examined", 5, nfun)
+}
+
+// R19i: positions are offsets into the text the caller gave. In parse.SoyFile the text parameter itself is
+// what the scanner is started on and what the tree records (tree.text / SoyFileNode.Text): nothing is
+// trimmed, decoded or rewritten on the way, or every offset — and every reported line — shifts.
+// R19j: a render error is positioned at the command whose output failed, so the renderer writes straight to
+// the caller's writer: the state built by Renderer.Execute gets the wr parameter itself, not a wrapper that
+// holds output back (a failure would then surface at the flush, at whatever node was walked last).
+func ruleR19i(c *Ctx) {
+	p := c.pkg("parse")
+	fd := c.mustFunc("parse", "SoyFile")
+	if p == nil || fd == nil {
+		return
+	}
+	info := p.TypesInfo
+	var text types.Object
+	for _, fl := range fd.Type.Params.List {
+		for _, nm := range fl.Names {
+			if nm.Name == "text" || nm.Name == "input" {
+				text = info.Defs[nm]
+			}
+		}
+	}
+	if text == nil {
+		// the second string parameter
+		i := 0
+		for _, fl := range fd.Type.Params.List {
+			for _, nm := range fl.Names {
+				if i == 1 {
+					text = info.Defs[nm]
+				}
+				i++
+			}
+		}
+	}
+	if text == nil {
+		c.fatalf("anchor: parse.SoyFile's text parameter not found")
+		return
+	}
+	isParam := func(e ast.Expr) bool {
+		id, ok := ast.Unparen(e).(*ast.Ident)
+		return ok && info.Uses[id] == text
+	}
+	n := 0
+	// every assignment to the parameter is a rewrite
+	ast.Inspect(fd.Body, func(x ast.Node) bool {
+		if as, ok := x.(*ast.AssignStmt); ok {
+			for _, l := range as.Lhs {
+				if isParam(l) {
+					n++
+					c.bad("R19i", "parse.SoyFile rewrites-input#"+itoa(n), as.Pos(), "the input text is replaced by "+exprKey(as.Rhs[0])+" before scanning: every offset, and so every reported line and column, refers to the changed text")
+				}
+			}
+		}
+		return true
+	})
+	// the scanner and the recorded text get the parameter itself
+	uses := 0
+	ast.Inspect(fd.Body, func(x ast.Node) bool {
+		switch e := x.(type) {
+		case *ast.CallExpr:
+			cal := calleeFunc(e, info)
+			if cal != nil && cal.Pkg() == p.Types && (cal.Name() == "lex" || cal.Name() == "lexExprAt" || cal.Name() == "lexExpr") {
+				uses++
+				good := len(e.Args) >= 2 && isParam(e.Args[1])
+				c.check(good, "R19i", "parse.SoyFile scanner-input", e.Pos(), "the scanner is started on the text as given", "the scanner is started on "+exprKey(e.Args[len(e.Args)-1])+", not on the text parameter itself")
+			}
+		case *ast.KeyValueExpr:
+			if id, ok := e.Key.(*ast.Ident); ok && (id.Name == "text" || id.Name == "Text") {
+				if _, isSel := ast.Unparen(e.Value).(*ast.SelectorExpr); isSel {
+					return true // t.text, itself set from the parameter (checked at its own site)
+				}
+				uses++
+				c.check(isParam(e.Value), "R19i", "parse.SoyFile recorded-text "+id.Name, e.Pos(), "the text recorded for positions is the text as given", "the text recorded for computing positions is "+exprKey(e.Value)+", not the text parameter itself")
+			}
+		}
+		return true
+	})
+	c.floor("R19i", "places where SoyFile hands the text on", 2, uses)
+}
+
+func ruleR19j(c *Ctx) {
+	p := c.pkg("soyhtml")
+	fd := c.mustFunc("soyhtml", "Renderer.Execute")
+	if p == nil || fd == nil {
+		return
+	}
+	info := p.TypesInfo
+	var wr types.Object
+	for _, fl := range fd.Type.Params.List {
+		for _, nm := range fl.Names {
+			if o := info.Defs[nm]; o != nil && isIOWriter(o.Type()) {
+				wr = o
+			}
+		}
+	}
+	if wr == nil {
+		c.fatalf("anchor: Renderer.Execute has no io.Writer parameter")
+		return
+	}
+	n := 0
+	ast.Inspect(fd.Body, func(x ast.Node) bool {
+		kv, ok := x.(*ast.KeyValueExpr)
+		if !ok {
+			return true
+		}
+		id, ok := kv.Key.(*ast.Ident)
+		if !ok || id.Name != "wr" {
+			return true
+		}
+		n++
+		vid, isID := ast.Unparen(kv.Value).(*ast.Ident)
+		c.check(isID && info.Uses[vid] == wr, "R19j", "soyhtml.Renderer.Execute state-writer", kv.Pos(), "the renderer writes to the caller's writer directly",
+			"the entry state's writer is "+exprKey(kv.Value)+", not the caller's writer itself: output held back by a wrapper fails when it is flushed, and the error is positioned at the last command walked instead of the one whose output failed")
+		return true
+	})
+	// and the parameter is not reassigned
+	ast.Inspect(fd.Body, func(x ast.Node) bool {
+		if as, ok := x.(*ast.AssignStmt); ok {
+			for _, l := range as.Lhs {
+				if id, ok := ast.Unparen(l).(*ast.Ident); ok && info.Uses[id] == wr {
+					n++
+					c.bad("R19j", "soyhtml.Renderer.Execute rewraps-writer", as.Pos(), "the caller's writer is replaced by "+exprKey(as.Rhs[0])+" before rendering")
+				}
+			}
+		}
+		return true
+	})
+	c.floor("R19j", "writer of the entry state", 1, n)
+}
